@@ -72,8 +72,14 @@ impl TypeRegistry {
     pub(crate) fn resolve_string(&self, scope: &[ItemPath], name: &str) -> Option<Type> {
         // todo: take scope_modules and scope_types instead of scope so that we don't need
         // to do this partitioning
-        let (scope_types, scope_modules): (Vec<&ItemPath>, Vec<&ItemPath>) =
-            scope.iter().partition(|ip| self.types.contains_key(ip));
+        // The first entry of a scope is the module itself; it is always a module, even when a
+        // type of the same path exists (a type `b` next to a module `a::b`).
+        let (scope_types, scope_modules): (Vec<_>, Vec<_>) = scope
+            .iter()
+            .enumerate()
+            .partition(|(index, ip)| *index != 0 && self.types.contains_key(ip));
+        let scope_types: Vec<&ItemPath> = scope_types.into_iter().map(|(_, ip)| ip).collect();
+        let scope_modules: Vec<&ItemPath> = scope_modules.into_iter().map(|(_, ip)| ip).collect();
 
         // If we find the relevant type within our scope, take the last one
         scope_types
